@@ -71,6 +71,11 @@ func (s Sql) RenameTableStm() string {
 	return s.apply("ALTER TABLE %s RENAME TO %s;")
 }
 
+// AlterTableAddColumnStm ...
+func (s Sql) AlterTableAddColumnStm() string {
+	return s.apply("ALTER TABLE %s ADD COLUMN %s;")
+}
+
 // AlterTableAddColumnFirstStm ...
 func (s Sql) AlterTableAddColumnFirstStm() string {
 	return s.apply("ALTER TABLE %s ADD COLUMN %s FIRST;")
